@@ -678,12 +678,14 @@ def _extract_nodedefs(
 
 def _insert_nodedefs(
   pure_carry_arg_out,
-  carry_nodedefs: deque[graph.NodeDef],
+  carry_nodedefs: deque[graph.NodeDef | graph.VariableDef],
   /,
 ):
   def insert_index_mappings(x):
+    # must mirror _extract_nodedefs: bare Variables in the carry have a
+    # VariableDef whose outer index was stripped as well
     if isinstance(x, extract.NodeStates) and isinstance(
-      x._graphdef, graph.NodeDef
+      x._graphdef, graph.NodeDef | graph.VariableDef
     ):
       nodedef = carry_nodedefs.popleft()
       x = x.replace(_graphdef=nodedef)
